@@ -44,12 +44,16 @@ def shorthand_leaf(rng, neg):
 
 def arg(rng, pal, tok_rate=0.15):
     if rng.random() < tok_rate:
+        if rng.random() < 0.25:
+            return ["lit", rng.choice(pal)]          # a one-character Pregex, accepted like a token
         return ["tok", rng.choice(TOKS)]
     return rng.choice(pal)
 
 
 def char_of(a):
-    return cm.TOKENS[a[1]] if isinstance(a, list) else a
+    if isinstance(a, list):
+        return a[1] if a[0] == "lit" else cm.TOKENS[a[1]]
+    return a
 
 
 def order_keys(rng, n):
@@ -135,6 +139,8 @@ def show(r):
     h = r[0]
     if h == "chr":
         return repr(r[1])
+    if h == "lit":
+        return "Pregex(%r)" % r[1]
     if h == "ref":
         return "let%d" % r[1]
     if h == "tok":
@@ -157,7 +163,7 @@ def show(r):
 def subrecipes(r):
     if isinstance(r, list) and r and r[0] in ("or", "sub", "inv"):
         for x in r[1:]:
-            if isinstance(x, list) and x[0] not in ("chr", "tok"):
+            if isinstance(x, list) and x[0] not in ("chr", "tok", "lit"):
                 yield x
             yield from subrecipes(x)
 
@@ -169,7 +175,7 @@ def shrink_recipe(r):
     h = r[0]
     if h in ("or", "sub", "inv"):
         for x in r[1:]:
-            if isinstance(x, list) and x[0] not in ("chr", "tok"):
+            if isinstance(x, list) and x[0] not in ("chr", "tok", "lit"):
                 yield x
         for i in range(1, len(r)):
             for v in shrink_recipe(r[i]):
@@ -179,14 +185,14 @@ def shrink_recipe(r):
             for i in range(1, len(r)):
                 yield r[:i] + r[i + 1:]
         for i in range(1, len(r)):
-            if isinstance(r[i], list) and r[i][0] == "tok":
-                yield r[:i] + [cm.TOKENS[r[i][1]]] + r[i + 1:]
+            if isinstance(r[i], list) and r[i][0] in ("tok", "lit"):
+                yield r[:i] + [char_of(r[i])] + r[i + 1:]
             elif isinstance(r[i], str) and r[i] not in "ab" and len(r[i]) == 1:
                 yield r[:i] + ["a"] + r[i + 1:]
     elif h in ("AnyBetween", "AnyButBetween"):
         for i in (1, 2):
-            if isinstance(r[i], list) and r[i][0] == "tok":
-                yield r[:i] + [cm.TOKENS[r[i][1]]] + r[i + 1:]
+            if isinstance(r[i], list) and r[i][0] in ("tok", "lit"):
+                yield r[:i] + [char_of(r[i])] + r[i + 1:]
     elif h == "named":
         if len(r) > 2:
             yield r[:2]
